@@ -443,11 +443,21 @@ func init() {
 		if cell == nil {
 			return TS.False
 		}
-		r := pruneRefUnder(fieldCell(cell, "C").Val.(*RefV), cc.c.g)
-		ch := r.Alts[0].R.(*ChanObj)
-		was := Not(termOf(ch.Extra))
-		cc.e.foot.write(ch.Obj, cc.c.g)
-		storeCell(ch.Extra, TS.True, cc.c.g)
+		r := fieldCell(cell, "C").Val.(*RefV)
+		was := TS.False
+		for _, a := range r.Alts {
+			ch, ok := a.R.(*ChanObj)
+			if !ok {
+				continue
+			}
+			g := And(cc.c.g, a.G)
+			if g.IsFalse() {
+				continue
+			}
+			was = Ite(a.G, Not(termOf(ch.Extra)), was)
+			cc.e.foot.write(ch.Obj, g)
+			storeCell(ch.Extra, TS.True, g)
+		}
 		return was
 	}}
 	models["(*time.Timer).Stop"] = stop
